@@ -69,6 +69,7 @@ static int compute_bit_address(
     if ((address & 0x07) != 0)
     {
       print_error(asm_context, "Not bit addressable");
+      return -1;
     }
 
     return address + bit;
